@@ -404,6 +404,32 @@ CLAIMED = {
         note="No constraints/indexes here. WITH only as MATCH (n) WITH n <write>; FOREACH, path/relationship MERGE, SET n = {..}, cross-node "
              "reads in SET not modelled; MATCH row order left open; stored null = absent.",
         ref="DESIGN.md §4 C04"),
+    "C01": dict(
+        text="CypherRead.tla is an executable openCypher reference for the read fragment (brute-force pattern matching under relationship "
+             "isomorphism, Kleene logic, bags, aggregation, OPTIONAL MATCH, WITH, UNWIND, UNION, ORDER BY/SKIP/LIMIT windows, variable "
+             "length and shortest paths), evaluated by TLC. TLC enumerates every graph within per-family bounds x every query of 20 clause "
+             "families plus random walks, checks laws of the semantics itself, and each case is rendered to Cypher, run on the real engine "
+             "and judged by TLC (Accept) from the logged graph and AST. An error on a shape listed in supported_shapes.json is a violation.",
+        note="Small scope (<=3 nodes, values {absent,1,2,2.0,'a',true}); lists compared as bags; 2 and 2.0 identified under "
+             "DISTINCT/grouping/UNION; not generated: sum over non-numbers, type errors inside AND/OR, named variable-length relationship "
+             "variables, path values, arithmetic and functions. Four open findings are modelled as deviations identified by query shape.",
+        ref="DESIGN.md §4 C01"),
+    "C35": dict(
+        text="The C01 cases are executed with literals inlined and, per position class (WHERE, RETURN, WITH, ORDER BY, inline pattern "
+             "properties, UNWIND, whole list, list elements, SKIP/LIMIT, all together), with the literals as $parameters "
+             "(QueryExecutor::with_params); TLC requires each parameterised run to be refused or to answer something the same reference "
+             "(CypherRead.tla) allows that also equals the inlined answer.",
+        note="Reads only; inline pattern properties and SKIP/LIMIT parameters are always refused by the engine, which is allowed.",
+        ref="DESIGN.md §4 C35"),
+    "C02": dict(
+        text="TLC generates graph histories (deletes, id reuse, Compact and CreateIndex at any point) x plan-sensitive query templates; each "
+             "history is replayed under {index} x {compact} x {graph-native planner} x {parallel filter threshold}, plus a 260-copy store "
+             "so the >=256-row parallel path really runs, in several processes; TLC requires every configuration's outcome to equal the "
+             "reference result (CypherRead.tla) on the logical graph. Known deviations are explained from modelled physical state (index "
+             "content, frozen tier phantoms), never by tolerance.",
+        note="Mutations via the GraphStore API; the inflated store is never compacted; the graph-native planner finding and the C06 "
+             "frozen-tier finding stay open.",
+        ref="DESIGN.md §4 C02"),
 }
 
 NOT_YET = "check not built yet in this round (planned in DESIGN.md §4); not claimed until its check is green on the unchanged tree"
